@@ -922,7 +922,11 @@ impl Parser {
                     loop {
                         match self.next_lexem() {
                             Some(Lexem::Comma) => {}
-                            Some(Lexem::RawString(_)) => {
+                            // a key may begin with a sign or a bracket as well as with a word
+                            Some(Lexem::RawString(_))
+                            | Some(Lexem::ArithmeticOperator(_))
+                            | Some(Lexem::Open)
+                            | Some(Lexem::CurlyOpen) => {
                                 self.drop_lexem();
                                 match self.parse_expr()? {
                                     Some(group_field) => group_by_fields.push(group_field),
@@ -995,6 +999,21 @@ impl Parser {
                             };
                             order_by_fields.push(actual_field);
                             order_by_directions.push(true);
+                        }
+                        // a key may begin with a sign or a bracket as well as with a word
+                        Some(Lexem::ArithmeticOperator(_)) | Some(Lexem::Open) | Some(Lexem::CurlyOpen) => {
+                            self.drop_lexem();
+                            match self.parse_expr()? {
+                                Some(field) => {
+                                    order_by_fields.push(field);
+                                    order_by_directions.push(true);
+                                }
+                                None => {
+                                    return Err(String::from(
+                                        "Error parsing order by, column expected",
+                                    ));
+                                }
+                            }
                         }
                         Some(Lexem::DescendingOrder) => {
                             match order_by_directions.last_mut() {
